@@ -6076,8 +6076,8 @@ memory_cast = getattr(memoryview, "cast", lambda *x: x[0])
 
 
 def modified_base64(s):
-    s_utf7 = s.encode("utf-7")
-    return s_utf7[1:-1].replace(b"/", b",")
+    s_utf16 = s.encode("utf-16-be")
+    return binascii.b2a_base64(s_utf16, newline=False).rstrip(b"=").replace(b"/", b",")
 
 
 def modified_unbase64(s):
